@@ -728,7 +728,47 @@ def inlined_body(fn, by_pat, depth=2, _stack=(), keep=(), mark=None):
 # truth tables: evaluate a boolean expression under an assignment of its atoms (three-valued: None = unknown), so that a rule
 # can require "filter == (A ? U : L) for every assignment" instead of one particular spelling of the expression
 # ---------------------------------------------------------------------------------------------------------------------------
-def tt_eval(e, atom, inl=None, depth=0):
+def _ite(c, a, b):
+    if c is True:
+        return a
+    if c is False:
+        return b
+    return a if a == b else None
+
+
+def _local_value(d, atom, inl, body, depth):
+    """value of a local that is assigned in several branches (bool include = false; switch (..) { case A: include = x; .. }):
+    folding the assignments in source order, each under the conditions known to hold where it stands"""
+    writes = []
+
+    def v(n):
+        if n.get("k") == "Decl":
+            for x in n.get("vars", []):
+                if x.get("d") == d and x.get("init") is not None:
+                    writes.append((x, x["init"], n))
+        if n.get("k") == "Assign" and n.get("op") == "=" and strip(n.get("l")).get("k") == "Ref" and strip(n["l"]).get("d") == d:
+            writes.append((n, n["r"], n))
+    walk(body, v)
+    if not writes:
+        return None
+    from triggers import _loc_key
+    writes.sort(key=lambda w: _loc_key(w[0]))
+    val = None
+    first = True
+    for node, rhs, where in writes:
+        rv = tt_eval(rhs, atom, inl, depth + 1, body)
+        if first and node.get("k") != "Assign":
+            val = rv
+            first = False
+            continue
+        first = False
+        conds = [tt_eval(l, atom, inl, depth + 1, body) for l, o in reach_tagged(body, where) if o != "loop"]
+        c = False if any(x is False for x in conds) else (True if all(x is True for x in conds) else None)
+        val = _ite(c, rv, val)
+    return val
+
+
+def tt_eval(e, atom, inl=None, depth=0, body=None):
     """atom(node) -> True / False / None ('not an atom I know'); &&, ||, !, ?:, bool literals and single-assignment locals (inl)
     are evaluated structurally"""
     e = strip(e)
@@ -739,14 +779,16 @@ def tt_eval(e, atom, inl=None, depth=0):
         return a
     k = e.get("k")
     if k == "Ref" and inl and e.get("d") in inl and depth < 6:
-        return tt_eval(inl[e["d"]], atom, inl, depth + 1)
+        return tt_eval(inl[e["d"]], atom, inl, depth + 1, body)
+    if k == "Ref" and body is not None and e.get("dk") == "local" and depth < 6:
+        return _local_value(e.get("d"), atom, inl, body, depth)
     if k == "Bool":
         return bool(e.get("b"))
     if k == "Un" and e.get("op") == "!":
-        v = tt_eval(e["e"], atom, inl, depth)
+        v = tt_eval(e["e"], atom, inl, depth, body)
         return None if v is None else (not v)
     if k == "Bin" and e.get("op") in ("&&", "||"):
-        l, r = tt_eval(e["l"], atom, inl, depth), tt_eval(e["r"], atom, inl, depth)
+        l, r = tt_eval(e["l"], atom, inl, depth, body), tt_eval(e["r"], atom, inl, depth, body)
         if e["op"] == "&&":
             if l is False or r is False:
                 return False
@@ -755,13 +797,13 @@ def tt_eval(e, atom, inl=None, depth=0):
             return True
         return False if (l is False and r is False) else None
     if k == "Cond":
-        c = tt_eval(e["c"], atom, inl, depth)
+        c = tt_eval(e["c"], atom, inl, depth, body)
         if c is None:
-            x, y = tt_eval(e["a"], atom, inl, depth), tt_eval(e["e"], atom, inl, depth)
+            x, y = tt_eval(e["a"], atom, inl, depth, body), tt_eval(e["e"], atom, inl, depth, body)
             return x if x == y else None
-        return tt_eval(e["a"] if c else e["e"], atom, inl, depth)
+        return tt_eval(e["a"] if c else e["e"], atom, inl, depth, body)
     if k == "Call" and e.get("cname") in ("move", "forward") and e.get("args"):
-        return tt_eval(e["args"][0], atom, inl, depth)
+        return tt_eval(e["args"][0], atom, inl, depth, body)
     return None
 
 
